@@ -17,11 +17,11 @@ CONSTANTS
   Weak_NoCentre = FALSE
   Weak_TieHighAddr = FALSE
   Weak_FloorDiv = FALSE
-  Weak_RoundSkipSingleIncrement = FALSE
+  Weak_RoundSkipSingleIncrement = TRUE
   Weak_LoadSingleIncrement = FALSE
   Weak_LoadNoIncrement = FALSE
   Weak_LoadOffByOne = FALSE
-  Weak_PruneDropsLastChanged = TRUE
+  Weak_PruneDropsLastChanged = FALSE
   Weak_PruneDropsCheckpoint = FALSE
   Weak_NoCheckpointRecord = FALSE
   Weak_RecoveryCopyDropsValUpdates = FALSE
